@@ -156,7 +156,7 @@ func genVersion(rng *rand.Rand, pool []string, src string, prev version) version
 		for i := 0; i < n; i++ {
 			v = append(v, newRule(i))
 		}
-		return fix(v)
+		return dupID(rng, fix(v))
 	}
 	v := prev.clone()
 	used := map[string]bool{}
@@ -210,7 +210,7 @@ func genVersion(rng *rand.Rand, pool []string, src string, prev version) version
 			}
 		}
 	}
-	return fix(v)
+	return dupID(rng, fix(v))
 }
 
 // toRuleSet: with shortIDs the rule ids are unique within their rule set only ("r0" in every source), as heimdall demands; the
@@ -235,7 +235,26 @@ func toRuleSet(src string, v version, shortIDs bool) *rconfig.RuleSet {
 }
 
 // mustReject: the two reasons named by the statement.
+// dupID: now and then two rules of a version carry the same id. Rule ids have to be unique (docs: regular_rule.adoc), such a rule
+// set must be refused as a whole - if it were loaded, nothing could tell its rules apart when it is updated or removed.
+func dupID(rng *rand.Rand, v version) version {
+	if len(v) >= 2 && rng.IntN(25) == 0 {
+		i, j := rng.IntN(len(v)), rng.IntN(len(v))
+		if i != j {
+			v[j].ID = v[i].ID
+		}
+	}
+	return v
+}
+
 func mustReject(state map[string]version, src string, v version) (bool, string) {
+	ids := map[string]bool{}
+	for _, r := range v {
+		if ids[r.ID] {
+			return true, "rule-id-not-unique"
+		}
+		ids[r.ID] = true
+	}
 	for _, r := range v {
 		for _, e := range r.exprs() {
 			if !exprValid(e) {
